@@ -37,6 +37,9 @@ class Verifier:
         self.contracts_used: set = set()
         self.externals_used: set = set()
         self.vacuity_obligations: list = []
+        import os as _os
+
+        self.max_seconds = float(_os.environ.get("PYVC_PATH_SECONDS", "120"))
 
     # ------------------------------------------------------------------ driver
     def run(self):
@@ -50,7 +53,10 @@ class Verifier:
             dec = pending.pop()
             self.paths += 1
             if self.paths > self.c.max_paths:
-                self.errors.append(f"path budget {self.c.max_paths} exceeded")
+                self.errors.append(f"unsupported: path budget {self.c.max_paths} exceeded (obligations of the explored paths are still decided)")
+                break
+            if time.time() - t0 > self.max_seconds:
+                self.errors.append(f"unsupported: path enumeration stopped after {self.max_seconds} s (obligations of the explored paths are still decided)")
                 break
             ctx = Ctx(dec)
             ctx.full_feasibility = not self.c.ghost.get("light_feasibility", False)
@@ -288,7 +294,7 @@ class Verifier:
             props = self.safety_props(self.c.target)
         name, tagged = split_label(label)
         if tagged:
-            props = tagged
+            props = list(tagged) + [x for x in self.c.ghost.get("hook_props", []) if x not in tagged]
         assumptions = list(I.ctx.pc)
         if using is not None:
             # proof hint: keep quantifier-free facts and only the named earlier clauses (dropping assumptions is sound)
@@ -619,6 +625,14 @@ class Verifier:
         pol = self.c.callees.get("type")
         if callable(pol):
             return pol(I, v)
+        if isinstance(v, SV) and isinstance(v.ty, Abs):
+            f = z3.Function(f"type_of_{v.ty.key}", sort_of(v.ty), sort_of(Abs("PyType")))
+            return SV(f(v.t), Abs("PyType"))
+        if v is None:
+            return ClassRef("NoneType", "NoneType")
+        for pyt in (bool, int, float, complex, str, bytes, tuple, frozenset, list, dict, set):
+            if type(v) is pyt:
+                return ClassRef(pyt.__name__, pyt.__name__)
         raise Unsupported(f"type({v!r})")
 
     def id_of(self, I, v):
